@@ -216,8 +216,13 @@ pub fn velocity(m: &mut Obj, v: &AirborneVelocity) {
             put(m, "ast", i64::from(a.airspeed_type));
             put(m, "as", i64::from(a.airspeed));
         }
-        AirborneVelocitySubType::Reserved0(r) | AirborneVelocitySubType::Reserved1(r) => {
+        AirborneVelocitySubType::Reserved0(r) => {
             put(m, "vraw22", i64::from(*r));
+            put(m, "vrk", 0);
+        }
+        AirborneVelocitySubType::Reserved1(r) => {
+            put(m, "vraw22", i64::from(*r));
+            put(m, "vrk", 1);
         }
         _ => put(m, "vst", -1),
     }
